@@ -256,7 +256,16 @@ def f17(p, i, exc):                    # module-level code (co_name <module>) ru
 _MODULE_CODE = compile("if i >= len(p):\n    raise exc\nr = FUNCS[p[i]](p, i + 1, exc)\n",
                        '<string>', 'exec')
 
-FUNCS += [f4, f5, f6, f7, f8, f9, f10, f11, f12, f13, f14, f15, f16, f17]
+
+
+def f18(p, i, exc):                    # NOT generated (docs/C12.md, candidate finding F-C12-2): the hide
+    __traceback_hide__ = lambda: True  # noqa -- marker is an object that does not pickle
+    if i >= len(p):
+        raise exc
+    return FUNCS[p[i]](p, i + 1, exc)
+
+
+FUNCS += [f4, f5, f6, f7, f8, f9, f10, f11, f12, f13, f14, f15, f16, f17, f18]
 
 
 def inf(n):
